@@ -177,6 +177,9 @@ func (C08) Generate(r *core.Rand, tier string, idx int) *core.Scenario {
 			}
 			a := c8Op(r, target, tlen)
 			a.A[1] = 0
+			if target == "DeleteMessages" {
+				a.A[3] = 2 // messages that are in no mailbox
+			}
 			if target == "AddMessagesToMailbox" || target == "AddFlagToMessages" || target == "SetFlagsOnMessages" {
 				a.A[3] = 1
 			}
@@ -288,7 +291,7 @@ func (x *c8Exec) fail(oracle, format string, args ...any) {
 	if x.v != nil {
 		return
 	}
-	d := fmt.Sprintf(format, args...)
+	d := c8Scrub(fmt.Sprintf(format, args...))
 	if len(d) > 900 {
 		d = d[:900] + "..."
 	}
@@ -307,15 +310,21 @@ func c8Class(err error) string {
 }
 
 // expect judges the error class of one call.  want is one of
-//   nil       must succeed
-//   notfound  must be db.ErrNotFound
-//   other     must fail with an error that is not ErrNotFound (the code states the error)
-//   anyerr    nonsense input: must fail, no effect (inside a transaction: give it up)
-//   unspec    nonsense input for which neither failure nor success is stated: no effect
+//
+//	nil       must succeed
+//	notfound  must be db.ErrNotFound
+//	other     must fail with an error that is not ErrNotFound (the code states the error)
+//	anyerr    nonsense input: must fail, no effect (inside a transaction: give it up)
+//	unspec    nonsense input for which neither failure nor success is stated: no effect
+//
 // It returns true when the call succeeded and its result is to be compared.
 func (x *c8Exec) expect(method, args string, err error, want string, write bool) bool {
 	got := c8Class(err)
-	x.tr.Event(method, args, got)
+	args = c8Scrub(args)
+	x.tr.Event(method + "(" + args + ") -> " + got)
+	if err != nil && x.tr.Keep {
+		x.tr.Log = append(x.tr.Log, "    error text: "+c8Scrub(err.Error())) // not part of the trace hash
+	}
 	x.st.Probes["m:"+method]++
 	ok := false
 	switch want {
@@ -448,7 +457,7 @@ func (x *c8Exec) switchTo(img, kind string) {
 	x.open(img, false)
 	x.st.Faults[kind]++
 	x.faults++
-	x.tr.Event("fault", kind)
+	x.tr.Event("fault " + kind)
 	x.m = x.committed
 	x.readback(kind)
 }
@@ -461,7 +470,7 @@ func (x *c8Exec) reopen() {
 	x.open(x.dir, false)
 	x.st.Faults["reopen"]++
 	x.faults++
-	x.tr.Event("fault", "reopen")
+	x.tr.Event("fault reopen")
 	x.readback("reopen")
 }
 
@@ -506,6 +515,9 @@ func (x *c8Exec) run() {
 // index of the first action not consumed.
 func (x *c8Exec) group(j int, read, single bool) int {
 	acts := x.sc.Actions
+	if !single {
+		x.tr.Event(map[bool]string{true: "begin read", false: "begin write"}[read])
+	}
 	if read {
 		var err error
 		x.call("Read", func() {
@@ -643,7 +655,8 @@ func (C08) Execute(sc *core.Scenario, keepLog bool) *core.Result {
 		ci: gluon.VerifDefaultDBClientInterface(), committed: c8NewModel()}
 	x.m = x.committed
 	// two ids that never exist
-	x.pool = append(x.pool, x.newID(), x.newID())
+	x.freshID()
+	x.freshID()
 	func() {
 		defer func() {
 			if r := recover(); r != nil {
